@@ -53,7 +53,15 @@ func ruleZeroWidthGuard(c *Ctx, rule string) {
 		ob.Und("matchStartLoop never calls INCLOOPSTACK")
 		return
 	}
+	// every path to an increment passes the check, or an edge on which `step < MinLoops + k` holds (a mandatory iteration: their
+	// number is bounded by the minimum, so skipping the check there cannot spin)
+	isStep, isMin, _ := c.loopMinAnchors(fn)
 	okDom := len(chks) > 0
+	chkBlock := map[*ssa.BasicBlock]bool{}
+	for _, chk := range chks {
+		chkBlock[chk.Block()] = true
+	}
+	bypass := 0
 	for _, inc := range incs {
 		d := false
 		for _, chk := range chks {
@@ -61,12 +69,41 @@ func ruleZeroWidthGuard(c *Ctx, rule string) {
 				d = true
 			}
 		}
-		if !d {
+		if d {
+			continue
+		}
+		// search the CFG from the entry without entering a block that makes the check and without crossing a bounded edge
+		seen := map[*ssa.BasicBlock]bool{}
+		work := []*ssa.BasicBlock{fn.Blocks[0]}
+		reached := false
+		for len(work) > 0 {
+			b := work[len(work)-1]
+			work = work[:len(work)-1]
+			if seen[b] || chkBlock[b] {
+				continue
+			}
+			seen[b] = true
+			if b == inc.Block() {
+				reached = true
+				break
+			}
+			iff, _ := b.Instrs[len(b.Instrs)-1].(*ssa.If)
+			for si, s := range b.Succs {
+				if iff != nil {
+					if kind, _, ok := stepMinForm(CondLit{iff.Cond, si == 0, iff}, isStep, isMin); ok && kind == "lt" {
+						bypass++
+						continue
+					}
+				}
+				work = append(work, s)
+			}
+		}
+		if reached {
 			okDom = false
 		}
 	}
 	if !okDom {
-		ob.Bad("a path reaches INCLOOPSTACK (start of another iteration) without passing through CHECKZEROMATCHLOOP: a loop whose body matched the empty string iterates forever")
+		ob.Bad("a path reaches INCLOOPSTACK (start of another iteration) without passing through CHECKZEROMATCHLOOP or a test `step < MinLoops`: a loop whose body matched the empty string iterates forever")
 		return
 	}
 	// the true edge of the check leads to BACKTRACK and a return, with no other state movement
@@ -114,7 +151,11 @@ func ruleZeroWidthGuard(c *Ctx, rule string) {
 	case len(calls) > 0:
 		ob.Bad("when the last iteration consumed nothing the handler backtracks but also calls " + strings.Join(uniq(calls), ", ") + ": the empty iteration can be continued instead of abandoned")
 	default:
-		ob.OKnt("CHECKZEROMATCHLOOP dominates INCLOOPSTACK; on a zero-width iteration the only effect is BACKTRACK followed by return")
+		if bypass > 0 {
+			ob.OKnt("every path to INCLOOPSTACK passes CHECKZEROMATCHLOOP or an edge on which `step < MinLoops` holds (bounded mandatory iterations); on a zero-width iteration the only effect is BACKTRACK followed by return")
+		} else {
+			ob.OKnt("CHECKZEROMATCHLOOP dominates INCLOOPSTACK; on a zero-width iteration the only effect is BACKTRACK followed by return")
+		}
 	}
 	// who writes / compares loopMatchIndexStart
 	w := c.fieldWriters("LoopState")
